@@ -29,7 +29,6 @@ import (
 	"math/rand"
 	"os"
 	"os/exec"
-	"runtime"
 	"sort"
 	"strings"
 	"sync"
@@ -133,8 +132,33 @@ func domainRec(d *domain) map[string]interface{} {
 	return map[string]interface{}{"ev": "Domain", "max": d.max, "gaps": gaps, "blocks": d.blocksString()}
 }
 
+// groupObs merges flavours whose observations are identical into one entry
+// (f lists their names): the recorded file stays small, nothing is judged here.
+func groupObs(obs []obsT) []obsT {
+	var out []obsT
+	var keys []string
+	for _, o := range obs {
+		name := o.F
+		o.F = ""
+		b, _ := json.Marshal(o)
+		found := false
+		for i, k := range keys {
+			if k == string(b) {
+				out[i].F += "+" + name
+				found = true
+			}
+		}
+		if !found {
+			o.F = name
+			out = append(out, o)
+			keys = append(keys, string(b))
+		}
+	}
+	return out
+}
+
 func opRec(o opT, obs []obsT) map[string]interface{} {
-	m := map[string]interface{}{"ev": o.Kind, "obs": obs}
+	m := map[string]interface{}{"ev": o.Kind, "obs": groupObs(obs)}
 	switch o.Kind {
 	case "AddNum":
 		m["vs"] = o.Vs
@@ -257,14 +281,15 @@ func looksSmallStatic(rs [][2]uint32) bool {
 
 const (
 	childTimeout  = 2 * time.Second
-	childMemLimit = 128 << 20
-	childASLimit  = 1 << 30 // address space (the Go runtime itself maps a few hundred MiB)
+	childMemLimit = 32 << 20
+	childASLimit  = 4 << 30 // address space backstop (the Go runtime itself maps a few hundred MiB)
 	exitMemLimit  = 97
 )
 
 type childIn struct {
-	Blocks string `json:"blocks"`
-	Ops    []opT  `json:"ops"`
+	Blocks  string `json:"blocks"`
+	Flavour int    `json:"flavour"`
+	Ops     []opT  `json:"ops"`
 }
 
 type childLine struct {
@@ -293,40 +318,54 @@ func cmdChild() {
 		fmt.Fprintln(os.Stderr, "child: setrlimit:", err)
 		os.Exit(3)
 	}
-	go func() { // memory watchdog
-		var ms runtime.MemStats
+	go func() { // memory watchdog on the resident set (no stop-the-world needed)
+		page := uint64(os.Getpagesize())
 		for {
-			time.Sleep(2 * time.Millisecond)
-			runtime.ReadMemStats(&ms)
-			if ms.HeapAlloc > childMemLimit || ms.Sys > 4*childMemLimit {
+			time.Sleep(time.Millisecond)
+			b, err := os.ReadFile("/proc/self/statm")
+			if err != nil {
+				continue
+			}
+			var size, rss uint64
+			fmt.Sscanf(string(b), "%d %d", &size, &rss)
+			if rss*page > childMemLimit {
 				os.Exit(exitMemLimit)
 			}
 		}
 	}()
 	w := bufio.NewWriter(os.Stdout)
-	for _, f := range newFlavours() {
-		for _, o := range in.Ops {
-			if err := apply(d, f, o); err != nil {
-				fmt.Fprintln(os.Stderr, "child:", err)
-				os.Exit(3)
-			}
-		}
-		nums, ok := f.Nums()
-		line := childLine{F: f.Name(), Ok: ok, N: len(nums), Vals: []int{}}
-		for i, n := range nums {
-			if i >= 64 {
-				break
-			}
-			line.Vals = append(line.Vals, d.toSym(n))
-		}
-		b, _ := json.Marshal(line)
-		w.Write(b)
-		w.WriteByte('\n')
-		w.Flush()
+	fls := newFlavours()
+	if in.Flavour < 0 || in.Flavour >= len(fls) {
+		fmt.Fprintln(os.Stderr, "child: bad flavour")
+		os.Exit(3)
 	}
+	f := fls[in.Flavour]
+	for _, o := range in.Ops {
+		if err := apply(d, f, o); err != nil {
+			fmt.Fprintln(os.Stderr, "child:", err)
+			os.Exit(3)
+		}
+	}
+	// everything up to here is set-up; from the marker on only Nums() runs
+	w.WriteString("{\"started\":true}\n")
+	w.Flush()
+	nums, ok := f.Nums()
+	line := childLine{F: f.Name(), Ok: ok, N: len(nums), Vals: []int{}}
+	for i, n := range nums {
+		if i >= 64 {
+			break
+		}
+		line.Vals = append(line.Vals, d.toSym(n))
+	}
+	b, _ := json.Marshal(line)
+	w.Write(b)
+	w.WriteByte('\n')
+	w.Flush()
 }
 
 type numsRunner struct {
+	numsOf  int // Nums() is run on one of numsOf states, chosen by a hash of the range list (1: all)
+	wrapOf  int // the two public wrappers are run on one of wrapOf states (1: all)
 	self    string
 	sem     chan struct{}
 	mu      sync.Mutex
@@ -347,7 +386,7 @@ func newNumsRunner() *numsRunner {
 	if err != nil {
 		self = os.Args[0]
 	}
-	return &numsRunner{self: self, sem: make(chan struct{}, 8), memo: map[string]*numsEntry{}}
+	return &numsRunner{self: self, sem: make(chan struct{}, 16), memo: map[string]*numsEntry{}, numsOf: 1, wrapOf: 1}
 }
 
 // nums returns, per flavour, what Nums() did on the set built by ops.  The
@@ -360,70 +399,98 @@ func (nr *numsRunner) nums(d *domain, key string, ops []opT) []numsObs {
 		nr.memo[key] = e
 	}
 	nr.mu.Unlock()
-	e.once.Do(func() { e.res = nr.run(d, ops) })
+	e.once.Do(func() { e.res = nr.run(d, key, ops) })
 	return e.res
 }
 
-func (nr *numsRunner) run(d *domain, ops []opT) []numsObs {
+func (nr *numsRunner) run(d *domain, key string, ops []opT) []numsObs {
 	nr.sem <- struct{}{}
 	defer func() { <-nr.sem }()
-	atomic.AddInt64(&nr.Runs, 1)
-	in, _ := json.Marshal(childIn{Blocks: d.blocksString(), Ops: ops})
-	ctx, cancel := context.WithTimeout(context.Background(), childTimeout)
-	defer cancel()
-	cmd := exec.CommandContext(ctx, nr.self, "child")
-	cmd.Stdin = bytes.NewReader(in)
-	var stdout, stderr bytes.Buffer
-	cmd.Stdout, cmd.Stderr = &stdout, &stderr
-	err := cmd.Run()
-	why := ""
-	if err != nil {
-		switch {
-		case ctx.Err() == context.DeadlineExceeded:
-			why = "no result within 2s (killed)"
-		case cmd.ProcessState != nil && cmd.ProcessState.ExitCode() == exitMemLimit,
-			strings.Contains(stderr.String(), "cannot allocate memory"), strings.Contains(stderr.String(), "out of memory"):
-			why = "memory limit hit (heap > 128 MiB or 1 GiB address space exhausted)"
-		case cmd.ProcessState != nil && cmd.ProcessState.ExitCode() == 3:
-			nr.infraMu.Lock()
-			nr.infra = "nums child: " + strings.TrimSpace(stderr.String())
-			nr.infraMu.Unlock()
-			why = "child setup failed"
-		default:
-			tail := stderr.String()
-			if len(tail) > 200 {
-				tail = tail[:200]
-			}
-			why = "child died: " + err.Error() + " " + strings.TrimSpace(tail)
-		}
-	}
-	got := map[string]childLine{}
-	sc := bufio.NewScanner(&stdout)
-	sc.Buffer(make([]byte, 1<<16), 1<<24)
-	for sc.Scan() {
-		var l childLine
-		if json.Unmarshal(sc.Bytes(), &l) == nil && l.F != "" {
-			got[l.F] = l
-		}
+	h := 0
+	for _, c := range key {
+		h = (h*31 + int(c)) & 0xffff
 	}
 	var res []numsObs
-	for _, f := range newFlavours() {
-		o := numsObs{Called: true, Vals: []int{}}
-		if l, ok := got[f.Name()]; ok {
-			o.Returned, o.Ok, o.Vals = true, l.Ok, l.Vals
-			if l.N > len(l.Vals) {
-				o.Why = fmt.Sprintf("returned %d numbers, first %d kept", l.N, len(l.Vals))
+	for fi := range newFlavours() {
+		if h%nr.numsOf != 0 || (fi > 0 && (h/nr.numsOf)%nr.wrapOf != 0) {
+			res = append(res, numsObs{Vals: []int{}})
+			continue
+		}
+		// A run that exceeds the memory limit is a runaway whatever the load of the
+		// machine; a run that only exceeds the time limit is repeated with 4 s and
+		// 8 s before "did not return" is recorded (a starved child is not a finding).
+		var o numsObs
+		for _, limit := range []time.Duration{childTimeout, 2 * childTimeout, 4 * childTimeout} {
+			var reason string
+			o, reason = nr.runOne(d, ops, fi, limit)
+			if !o.Called {
+				continue // the child never reached Nums() (slow start on a loaded machine): not an observation
 			}
-		} else {
-			o.Why = why
-			if why == "" {
-				o.Why = "child printed no result"
+			if o.Returned || reason != "time" {
+				break
 			}
+		}
+		if !o.Called {
+			nr.infraMu.Lock()
+			nr.infra = "nums child did not reach Nums() in three attempts: " + o.Why
+			nr.infraMu.Unlock()
+		}
+		if o.Called && !o.Returned {
 			atomic.AddInt64(&nr.NoRet, 1)
 		}
 		res = append(res, o)
 	}
 	return res
+}
+
+// runOne calls Nums() of one flavour in a child process of its own.
+func (nr *numsRunner) runOne(d *domain, ops []opT, fi int, limit time.Duration) (numsObs, string) {
+	atomic.AddInt64(&nr.Runs, 1)
+	in, _ := json.Marshal(childIn{Blocks: d.blocksString(), Flavour: fi, Ops: ops})
+	ctx, cancel := context.WithTimeout(context.Background(), limit)
+	defer cancel()
+	cmd := exec.CommandContext(ctx, nr.self, "child")
+	cmd.Env = append(os.Environ(), "GOMAXPROCS=2", "GOGC=off")
+	cmd.Stdin = bytes.NewReader(in)
+	var stdout, stderr bytes.Buffer
+	cmd.Stdout, cmd.Stderr = &stdout, &stderr
+	err := cmd.Run()
+	why, reason := "", ""
+	if err != nil {
+		switch {
+		case cmd.ProcessState != nil && cmd.ProcessState.ExitCode() == exitMemLimit,
+			strings.Contains(stderr.String(), "cannot allocate memory"), strings.Contains(stderr.String(), "out of memory"):
+			why, reason = "no result: stopped by the time / memory limit", "mem"
+		case ctx.Err() == context.DeadlineExceeded:
+			why, reason = "no result: stopped by the time / memory limit", "time"
+		default:
+			tail := stderr.String()
+			if len(tail) > 300 {
+				tail = tail[:300]
+			}
+			why, reason = "child died: "+err.Error()+" "+strings.TrimSpace(tail), "died"
+		}
+	}
+	o := numsObs{Vals: []int{}, Why: why}
+	sc := bufio.NewScanner(&stdout)
+	sc.Buffer(make([]byte, 1<<16), 1<<24)
+	for sc.Scan() {
+		if strings.Contains(sc.Text(), `"started"`) {
+			o.Called = true
+			continue
+		}
+		var l childLine
+		if json.Unmarshal(sc.Bytes(), &l) == nil && l.F != "" {
+			o.Returned, o.Ok, o.Vals, o.Why = true, l.Ok, l.Vals, ""
+			if l.N > len(l.Vals) {
+				o.Why = fmt.Sprintf("returned %d numbers, first %d kept", l.N, len(l.Vals))
+			}
+		}
+	}
+	if o.Called && !o.Returned && o.Why == "" {
+		o.Why = "child ended without a result"
+	}
+	return o, reason
 }
 
 func rangesKey(rs [][2]uint32) string {
@@ -507,7 +574,7 @@ func stepVerdict(exp *expT, o obsT) (differs string, altHit bool, numsSig string
 
 type stats struct {
 	behaviours, steps, nontrivial, vectors, validVectors int64
-	altHits, divergent, numsBad                          int64
+	altHits, divergent, numsBad, prefixOff               int64
 	mu                                                   sync.Mutex
 	perSig                                               map[string]int
 	samples                                              []interface{}
@@ -630,8 +697,18 @@ func runBehaviour(d *domain, p *payloadT, nr *numsRunner, st *stats, out *vh.Out
 		}
 		recs = append(recs, opRec(o, obs))
 		atomic.AddInt64(&st.steps, 1)
+		last := i == len(p.H)-1
+		prefixOff := false
 		for k := range obs {
 			differs, alt, numsSig := stepVerdict(s.Exp, obs[k])
+			if !last {
+				// a step of the prefix is the last step of another printed behaviour and is
+				// reported there; here it only tells that going on is pointless
+				if differs != "" {
+					prefixOff = true
+				}
+				continue
+			}
 			if alt {
 				atomic.AddInt64(&st.altHits, 1)
 			}
@@ -640,11 +717,13 @@ func runBehaviour(d *domain, p *payloadT, nr *numsRunner, st *stats, out *vh.Out
 			}
 			if numsSig != "" {
 				atomic.AddInt64(&st.numsBad, 1)
-				pre := *p
-				pre.H = p.H[:i+1]
 				st.emit(out, numsSig, fmt.Sprintf("%s: after %s the set is %q; Nums() must return %v (as points) but: returned=%v ok=%v vals=%v %s",
-					obs[k].F, describe(d, ops), obs[k].Text, s.Exp.Nums, obs[k].Nums.Returned, obs[k].Nums.Ok, obs[k].Nums.Vals, obs[k].Nums.Why), pre)
+					obs[k].F, describe(d, ops), obs[k].Text, s.Exp.Nums, obs[k].Nums.Returned, obs[k].Nums.Ok, obs[k].Nums.Vals, obs[k].Nums.Why), p)
 			}
+		}
+		if prefixOff {
+			atomic.AddInt64(&st.prefixOff, 1)
+			break
 		}
 		if i == len(p.H)-1 {
 			after := len(fls[0].Ranges())
@@ -826,7 +905,7 @@ func finishReplay(st *stats, nr *numsRunner, out *vh.Out, infra string) {
 		"behaviours": st.behaviours, "steps": st.steps, "nontrivial": st.nontrivial,
 		"vectors": st.vectors, "valid_vectors": st.validVectors,
 		"alt_canonical_hits": st.altHits, "divergent": st.divergent, "divergent_recorded": st.side.n,
-		"nums_bad_steps": st.numsBad, "nums_children": nr.Runs, "nums_children_without_result": nr.NoRet,
+		"nums_bad_steps": st.numsBad, "stopped_in_prefix": st.prefixOff, "nums_children": nr.Runs, "nums_children_without_result": nr.NoRet,
 		"per_sig": st.perSig, "samples": st.samples,
 	}
 	if infra == "" {
@@ -839,9 +918,10 @@ func finishReplay(st *stats, nr *numsRunner, out *vh.Out, infra string) {
 	out.Flush()
 }
 
-func cmdReplay(path, side string, workers int) {
+func cmdReplay(path, side string, workers int, numsOf, wrapOf int) {
 	out := vh.NewOut()
 	nr := newNumsRunner()
+	nr.numsOf, nr.wrapOf = numsOf, wrapOf
 	sf, err := newSide(side)
 	if err != nil {
 		out.Summary(map[string]interface{}{"infra_error": err.Error()})
@@ -1099,7 +1179,7 @@ func recordOp(d *domain, fls []flavour, o opT, hist []opT, nr *numsRunner) ([]ob
 	return obs, nil
 }
 
-func cmdRandom(path string, seed int64, traces, steps, texts int) {
+func cmdRandom(path string, seed int64, traces, steps, texts int, numsOf, wrapOf int) {
 	out := vh.NewOut()
 	d, err := parseBlocks(randomBlocks)
 	if err != nil {
@@ -1108,6 +1188,7 @@ func cmdRandom(path string, seed int64, traces, steps, texts int) {
 		return
 	}
 	nr := newNumsRunner()
+	nr.numsOf, nr.wrapOf = numsOf, wrapOf
 	type result struct {
 		recs []map[string]interface{}
 		err  error
@@ -1315,6 +1396,8 @@ func main() {
 	steps := fs.Int("steps", 50, "")
 	texts := fs.Int("texts", 2000, "")
 	workers := fs.Int("workers", 16, "")
+	numsOf := fs.Int("numsof", 1, "")
+	wrapOf := fs.Int("wrapof", 1, "")
 	switch mode {
 	case "replay", "one", "rerun":
 		if len(os.Args) < 4 {
@@ -1324,7 +1407,7 @@ func main() {
 		fs.Parse(os.Args[4:])
 		switch mode {
 		case "replay":
-			cmdReplay(os.Args[2], os.Args[3], *workers)
+			cmdReplay(os.Args[2], os.Args[3], *workers, *numsOf, *wrapOf)
 		case "one":
 			cmdOne(os.Args[2], os.Args[3])
 		default:
@@ -1332,7 +1415,7 @@ func main() {
 		}
 	case "random":
 		fs.Parse(os.Args[3:])
-		cmdRandom(os.Args[2], *seed, *traces, *steps, *texts)
+		cmdRandom(os.Args[2], *seed, *traces, *steps, *texts, *numsOf, *wrapOf)
 	default:
 		os.Exit(2)
 	}
